@@ -186,7 +186,9 @@ def pack_cases(draw, mtus=None):
     mtu = draw(st.sampled_from(mtus)) if mtus else draw(st.one_of(st.just(1500), st.integers(512, 1500), st.sampled_from([512, 513, 600, 1095, 1096, 1097, 1100, 1499])))
     ticks = draw(st.lists(st.lists(burst, min_size=0, max_size=3), min_size=1, max_size=6))
     flavour = draw(st.sampled_from(["udp", "twisted"]))
-    return {"mtu": mtu, "ticks": ticks,
+    # irregular frame pacing (a hitch lets several unacked best-effort messages fall due for resend together)
+    dts = draw(st.lists(st.sampled_from([0.02, 0.02, 0.017, 0.05, 0.12, 0.2]), min_size=len(ticks), max_size=len(ticks)))
+    return {"mtu": mtu, "ticks": ticks, "dts": dts,
             "flavour": flavour, "seed": draw(st.integers(0, 2 ** 16))}
 
 
@@ -232,7 +234,8 @@ def pack_body(ctx, c):
         mixed_multi = False
         dt = 0.02
         total_bytes = 0
-        for tick in c["ticks"]:
+        for ti_, tick in enumerate(c["ticks"]):
+            dt = c["dts"][ti_] if "dts" in c and ti_ < len(c["dts"]) else 0.02
             # queue this tick's sends; client sends happen now, server sends inside handler.update of the tick
             csnap = None
             conn = ch.conn
@@ -276,7 +279,10 @@ def pack_body(ctx, c):
                         mtu, side, k, sum(ns), P, carried[:4]))
                 if k > 1 and len(set(ns)) > 1:
                     mixed_multi = True
-        # drain: as many send opportunities as the backlog needs, plus slack
+        dt = 0.02
+        # a few irregular frames first, then steady draining: as many send opportunities as the backlog needs, plus slack
+        for d_ in (0.12, 0.02, 0.2, 0.02, 0.02, 0.15):
+            w.step(d_)
         extra = int(total_bytes / max(200, P // 2)) + 80
         for _ in range(extra):
             w.step(dt)
